@@ -2011,12 +2011,10 @@ class Measurement:
         other_upper = other.measurand + other.uncertainty
 
         try:
-            overlaps_lower = self_lower <= other_lower <= self_upper
-            overlaps_upper = self_lower <= other_upper <= self_upper
+            # two intervals overlap when each one starts before the other one ends
+            return self_lower <= other_upper and other_lower <= self_upper
         except TypeError:
             return False
-
-        return overlaps_lower or overlaps_upper
 
     def __lt__(self, other: object) -> bool:
         if isinstance(other, Quantity):
